@@ -148,6 +148,21 @@ def run(ctx):
                 ctx.report({"kind": "stage-multiset", "stage": nm, "falsy": True},
                            f"{nm}(buffer_size={b}) over {falsy!r} yielded {out!r}: elements such as None / 0 / '' are data, not end markers",
                            {"stage": nm, "b": b, "input": [repr(x) for x in falsy], "output": [repr(x) for x in out]})
+    # ---- the real lazy pool under the deterministic scheduler (C13's instrument): whatever the relative speeds of the worker
+    # threads and the consumer — a `get` with a time-out may time out whenever its queue is empty, i.e. the consumer or a
+    # worker may be arbitrarily slow — one pass yields every input's result exactly once
+    prng = ctx.rng("c02-pool")
+    pargs = [{"T": T, "n": n, "seed": prng.randrange(1 << 30), "policy": pol, "reuse": False}
+             for T in (1, 2, 3) for n in (0, 1, 5, 2 * T + 3, 4 * T + 7) for pol in ("random", "consumer_first", "workers_first")]
+    pres = child.call("harness.checks.c13", "run_cases", pargs, timeout=900)
+    for r in pres:
+        want = sorted(x * 10 for x in range(r["case"]["n"]))
+        if r["status"] != "done" or sorted(r["got"]) != want or r["stuck"]:
+            ctx.report({"kind": "pool-pass", "stage": "lazy_pool", "policy": r["case"]["policy"]},
+                       f"LazyPool(T={r['case']['T']}) over {r['case']['n']} inputs under schedule policy {r['case']['policy']}: status {r['status']}, "
+                       f"{len(r['got'])} results (missing {sorted(set(want) - set(r['got']))[:6]}), stuck workers {r['stuck']}, time-outs fired {r.get('timeouts')}",
+                       {"case": r["case"], "got": r["got"], "labels": r["labels"][:60]})
+    ctx.cov["scheduled_pool_passes"] = len(pres)
     # ---- end to end (child process: threads, TF, rebuilt Rust extension)
     cases = e2e_cases(ctx)
     recs = []
